@@ -75,6 +75,22 @@ template <size_t... D> size_t colmajor_offset(size_t q, shape_<D...>) {
     return off;
 }
 
+// construction from (nested) initializer lists: rank 1 generically, a few small shapes literally
+template <class Ten, class T, class S> struct IL { enum { available = 0 }; static Ten make(const T *) { return Ten(); } };
+template <class Ten, class T, size_t N> struct IL<Ten, T, shape_<N>> { enum { available = 1 };
+    template <size_t... I> static Ten mk(const T *v, std_ext::index_sequence<I...>) { return Ten{v[I]...}; }
+    static Ten make(const T *v) { return mk(v, std_ext::make_index_sequence<N>{}); } };
+template <class Ten, class T> struct IL<Ten, T, shape_<2, 3>> { enum { available = 1 }; static Ten make(const T *v) { return Ten{{v[0], v[1], v[2]}, {v[3], v[4], v[5]}}; } };
+template <class Ten, class T> struct IL<Ten, T, shape_<3, 2>> { enum { available = 1 }; static Ten make(const T *v) { return Ten{{v[0], v[1]}, {v[2], v[3]}, {v[4], v[5]}}; } };
+template <class Ten, class T> struct IL<Ten, T, shape_<3, 4>> { enum { available = 1 }; static Ten make(const T *v) { return Ten{{v[0], v[1], v[2], v[3]}, {v[4], v[5], v[6], v[7]}, {v[8], v[9], v[10], v[11]}}; } };
+template <class Ten, class T> struct IL<Ten, T, shape_<3, 3>> { enum { available = 1 }; static Ten make(const T *v) { return Ten{{v[0], v[1], v[2]}, {v[3], v[4], v[5]}, {v[6], v[7], v[8]}}; } };
+template <class Ten, class T> struct IL<Ten, T, shape_<2, 2, 3>> { enum { available = 1 }; static Ten make(const T *v) { return Ten{{{v[0], v[1], v[2]}, {v[3], v[4], v[5]}}, {{v[6], v[7], v[8]}, {v[9], v[10], v[11]}}}; } };
+
+// squeeze(): available as the rank-1 handle when the owning source has exactly one non-unit extent
+template <class T, class S1, class Map0> struct Squeeze { enum { available = 0 }; template <class Src> static Map0 make(Src &s) { return Map0(flatten(s)); } };
+template <class T, size_t N> struct Squeeze<T, shape_<1, N>, TensorMap<T, N>> { enum { available = 1 }; template <class Src> static TensorMap<T, N> make(Src &s) { return squeeze(s); } };
+template <class T, size_t N> struct Squeeze<T, shape_<N, 1>, TensorMap<T, N>> { enum { available = 1 }; template <class Src> static TensorMap<T, N> make(Src &s) { return squeeze(s); } };
+
 template <class T, class S0, class S1, class S2> struct MU : UniverseBase {
     static constexpr int SZ = (int)size_of<S0>::value;
     using Ten0 = typename ten_of<T, S0>::type; using Ten1 = typename ten_of<T, S1>::type; using Ten2 = typename ten_of<T, S2>::type;
@@ -93,7 +109,7 @@ template <class T, class S0, class S1, class S2> struct MU : UniverseBase {
 
     void wrap() {
         if (storage == 0) { h0 = new (hs0) Map0(buf); h1 = new (hs1) Map1(buf); h2 = new (hs2) Map2(buf); }
-        else { h0 = new (hs0) Map0(flatten(*src)); h1 = new (hs1) Map1(*src); h2 = new (hs2) Map2(reshape_to(*src, S2{})); }
+        else { h0 = new (hs0) Map0(Squeeze<T, S1, Map0>::make(*src)); h1 = new (hs1) Map1(*src); h2 = new (hs2) Map2(reshape_to(*src, S2{})); }
     }
     template <size_t... D> static TensorMap<T, D...> reshape_to(Ten1 &s, shape_<D...>) { return reshape<D...>(s); }
     void refill(uint64_t salt, bool pow2) { for (int i = 0; i < SZ; ++i) { uint64_t hh = mix2(((uint64_t)dataseed << 20) ^ salt, (uint64_t)i); shadow[i] = pow2 ? pow2val<T>(hh) : smallval<T>(hh); buf[i] = shadow[i]; } }
@@ -219,13 +235,14 @@ template <class T, class S0, class S1, class S2> struct MU : UniverseBase {
         if (storage == 1 && memcmp(src->data(), shadow.data(), sizeof(T) * SZ) != 0) { v.set(si, "stale-handle/source", opname, "%s: the owning source does not observe the bytes written through a map", opname); return; }
         long off = g_arena.check_poison(0);
         if (off >= 0) { char k[96]; snprintf(k, sizeof k, "poison/%s", KINDNAME[kind]); v.set(si, k, opname, "%s: %s overwrote byte %ld outside the wrapped extent", opname, info.desc, off); return; }
+        if (cnt && storage == 1 && Squeeze<T, S1, Map0>::available) cnt->bump("probe/squeeze() handle live");
         if (cnt) { cnt->bump("probe/cross-handle reads", 3); if (last_writer >= 0 && last_writer != 3) cnt->bump("probe/write through one handle observed through the others"); }
     }
 };
 
 // constructors from external storage and layout conversions, checked by index arithmetic on the current contents
 template <class T, class S0, class S1, class S2> void MU<T, S0, S1, S2>::ctor_layout(Cx &cx) {
-    const Step &st = *cx.st; uint32_t w = st.a[A_RHS] % 6; int hi = (int)(st.a[A_HANDLE] % 3);
+    const Step &st = *cx.st; uint32_t w = st.a[A_RHS] % 7; int hi = (int)(st.a[A_HANDLE] % 3);
     auto go = [&](auto &h, auto *tenp, auto sh) {
         using Ten = typename std::remove_pointer<decltype(tenp)>::type;
         Ten t, u2; const T *p = buf; Outcome o;
@@ -238,6 +255,8 @@ template <class T, class S0, class S1, class S2> void MU<T, S0, S1, S2>::ctor_la
         case 2: o = window([&] { Ten x(arr, (st.a[A_X] & 1) ? ColumnMajor : RowMajor); t = x; }, false); colmajor_input = st.a[A_X] & 1; break;
         case 3: o = window([&] { Ten x(vec, (st.a[A_X] & 1) ? ColumnMajor : RowMajor); t = x; }, false); colmajor_input = st.a[A_X] & 1; break;
         case 4: o = window([&] { t = torowmajor(h); u2 = tocolumnmajor(t); }, false); placed = true; roundtrip = true; break;
+        case 6: if (IL<Ten, T, decltype(sh)>::available) { const T *vv = shadow.data(); o = window([&] { t = IL<Ten, T, decltype(sh)>::make(vv); }, false); if (cx.cnt) cx.cnt->bump("probe/initializer-list constructor checked"); }
+                else { o = window([&] { Ten x(p, RowMajor); t = x; }, false); } break;
         default: o = window([&] { t = tocolumnmajor(h); u2 = torowmajor(t); }, false); colmajor_input = true; roundtrip = true; break;
         }
         snprintf(cx.info->desc, sizeof cx.info->desc, "ctor/layout variant %u on shape of handle %d", w, hi);
